@@ -127,6 +127,9 @@ theorem fireOf_cloop (h : sp.getDef i = .cloop) :
 theorem fireOf_route {src sel k} (h : sp.getDef i = .route src sel k) :
     fireOf sp ev look i = (look src).map (·.filter fun x => (routeKeys sel x).contains k) := by
   simp only [fireOf, h]
+theorem fireOf_when {s t} (h : sp.getDef i = .when s t) :
+    fireOf sp ev look i = (do let x ← look s; let y ← look t; pure (if y.isSome then x else none)) := by
+  simp only [fireOf, h]
 
 end eqns
 
@@ -255,6 +258,7 @@ theorem fireOf_mono (sp : Spec) (ev : Events) {look look' : Nat → Option (Opti
     · exact h _ _ hf
     · exact hf
   | route src sel k => rw [fireOf_route _ _ _ _ hd] at hf ⊢; exact map_look_mono h _ _ _ hf
+  | «when» s t => rw [fireOf_when _ _ _ _ hd] at hf ⊢; exact bind2_look_mono h _ _ _ _ hf
 
 /-! ### the table is a solution of the equations -/
 
@@ -361,7 +365,7 @@ def operands (sp : Spec) (i : Nat) : List Nat :=
   | .map s _ | .mapto s _ | .filter s _ | .snapshot s _ _ | .snapshot1 s _ | .snapshotn s _
   | .gate s _ | .hold s _ | .holdz s _ | .once s | .accum s _ _ | .collect s _ _ | .route s _ _ => [s]
   | .updates c | .value c | .mapc c _ => [c]
-  | .merge a b _ | .orelse a b | .lift2 a b _ => [a, b]
+  | .merge a b _ | .orelse a b | .lift2 a b _ | .when a b => [a, b]
   | .liftn cs => cs
   | .switchs sel cands =>
     (match sp.val sel with
@@ -549,6 +553,15 @@ theorem fireOf_resolved (sp : Spec) (ev : Events) (look : Nat → Option (Option
   | route src sel k =>
     have hs := h src (by simp [operands, hd])
     rw [fireOf_route _ _ _ _ hd]; simpa using hs
+  | «when» a b =>
+    have ha := h a (by simp [operands, hd])
+    have hb := h b (by simp [operands, hd])
+    rw [fireOf_when _ _ _ _ hd]
+    cases h1 : look a with
+    | none => exact absurd h1 ha
+    | some x => cases h2 : look b with
+      | none => exact absurd h2 hb
+      | some y => simp
 
 
 
